@@ -830,6 +830,9 @@ def committedFns : List FnRole := [
   ⟨"game.agent.scripted_agents.probabilistic_agent:ProbabilisticAgent.rng.<lambda>", [.construct, .reset], false⟩,
   ⟨"game.agent.scripted_agents.random_agent:PeriodicAgent._set_next_execution_timestep", allPhases, false⟩,
   ⟨"game.agent.scripted_agents.random_agent:PeriodicAgent.start_node", allPhases, false⟩,
+  -- RandomAgent's PRIVATE generator (C03's repair 903a159): its seed is drawn from numpy's global generator when the agent is built, i.e. in
+  -- construct / reset (seeded operations); `get_action` draws from `self.rng` only — no process-global draw in `step`
+  ⟨"game.agent.scripted_agents.random_agent:RandomAgent.rng.<lambda>", [.construct, .reset], false⟩,
   ⟨"game.game:PrimaiteGame.apply_agent_actions", [.step], true⟩,
   ⟨"game.science:simulate_trial", [.step], false⟩,
   ⟨"primaite:getLogger", [], true⟩,
